@@ -29,15 +29,15 @@ def setup(c):
         "model: Spec.OMap) + raw result + the partial requests sent (start:end:limit / batch key lists with `!` for region errors); "
         "the `obs` token (per-request layouts, batch grouping layouts and outcomes, observed by the harness) is the model's layout-sequence input")
     c.assumptions = [
-        "the store side is a correct store: mocktikv's deviations are repaired in the RPC wrapper when `mockfix on` (RawBatchGet pairs for "
-        "missing keys, key_only ignored, RawCompareAndSwap on a missing key / previous_not_exist); the raw mock is exercised by four "
-        "`mockfix off` cases per run and its deviations are matched through known_findings.json",
+        "the store side is mocktikv as it is (since the fixes C11-1..5 nothing is repaired by the RPC wrapper; C11_MOCKFIX=on or a "
+        "`mockfix on` op switches the old repairs back on for a tree without them); five fixed-input cases re-check the repaired mock "
+        "defects on every run; the client works in column family CF_DEFAULT because the mock's RawChecksum handler reads only that one",
         "TTL: PutWithTTL is exercised, expiry is not (mocktikv stores no TTL; GetKeyTTL is not handled by the mock)",
         "batch requests run in goroutines: the harness serialises the RPCs and rebuilds the invocation tree from goroutine ids "
         "(`created by … in goroutine N`); which concurrent batch meets an injected topology change first is scheduler dependent, the "
         "observed outcomes are passed to the model",
-        "S12 (RawBatchDelete served on a stale epoch by the mock) does not change any client-visible result; occurrences are counted "
-        "in input_distribution['note:s12_stale_batch_delete_served']",
+        "S12 (RawBatchDelete served on a stale epoch by the mock, fixed by C11-5): occurrences are still counted in "
+        "input_distribution['note:s12_stale_batch_delete_served'] (expected 0)",
         "limits above MaxRawKVScanLimit, column families, API v2 (C15) and several concurrent clients are not exercised",
     ]
 
